@@ -1,6 +1,7 @@
 '''Shared runner infrastructure: paths, result collection, evidence, known findings, replay
 files and the parallel farm.  Every check driver in /verif/checks uses this module.'''
 
+import gc
 import hashlib
 import json
 import multiprocessing
@@ -185,6 +186,10 @@ def farm(fn, items, *, seed=0, init=None, nproc=None, chunk=None, progress=None)
     chunks = [(fn, items[i:i + chunk]) for i in range(0, len(items), chunk)]
     ctx = multiprocessing.get_context('fork')
     done = 0
+    # the (possibly huge) case list lives in every forked worker: keep it out of the workers'
+    # garbage collections, whose cost would otherwise grow with the number of cases
+    gc.collect()
+    gc.freeze()
     with ctx.Pool(nproc, initializer=_worker_init, initargs=(init,)) as pool:
         for res in pool.imap_unordered(_worker_call, chunks):
             total.merge(res)
